@@ -34,9 +34,16 @@ def gen_ops(rng, n, vals, big):
         elif r < 0.78:
             n_ = rng.choice([0, 1, 2, 3, 4, 5, size_guess, max(0, size_guess - 1), max(0, size_guess - 2), size_guess + 1, size_guess + 3, rng.randint(0, big)])
             setn = rng.randint(0, 1)
-            ops.append("es:%d:%d:%d:%d" % (n_, setn, rng.choice([0, 0, 1, 2, 5]), rng.randint(0, 1)))
-            if setn:
-                size_guess = n_
+            extra = rng.choice([0, 0, 1, 2, 5])
+            if rng.random() < 0.06:
+                # uint32 boundary: n + extra reaches MUSCLE_NO_LIMIT (2^32-1) or wraps around -> B_RESOURCE_LIMIT, nothing changes
+                # (never a sum between "small" and 2^32-2: that would be a real multi-gigabyte allocation)
+                extra = rng.choice([4294967295 - n_, 4294967295, 4294967296 - n_ if n_ else 4294967295])
+                ops.append("es:%d:%d:%d:%d" % (n_, setn, extra, rng.randint(0, 1)))
+            else:
+                ops.append("es:%d:%d:%d:%d" % (n_, setn, extra, rng.randint(0, 1)))
+                if setn:
+                    size_guess = n_
         elif r < 0.80:
             ops.append("sw:%d:%d" % (idx, rng.randint(0, max(1, size_guess))))
         elif r < 0.83:
@@ -93,9 +100,9 @@ def gen_ops(rng, n, vals, big):
             elif r3 < 0.58:
                 ops.append("rar:%d" % i2)
             elif r3 < 0.72:
-                ops.append("stf:%d" % rng.choice([0, 0, 0, 1, 2, 3, 5]))
+                ops.append("stf:%d" % rng.choice([0, 0, 0, 1, 2, 3, 5, 4294967295]))
             elif r3 < 0.82:
-                ops.append("eca:%d" % rng.choice([0, 1, 1, 2, 3, 6]))
+                ops.append("eca:%d" % rng.choice([0, 1, 1, 2, 3, 6, 4294967295]))
             elif r3 < 0.87:
                 ops.append("rpa:%d" % v)
             else:
@@ -171,7 +178,8 @@ class CHECK(vlib.Check):
                 "Effect level in the model: Sort/Merge, Normalize's rotation, RemoveAllInstancesOf's compaction loop. "
                 "Not modelled: AdoptRawDataArray/ReleaseRawDataArray, HashCode/CalculateChecksum, constructors other than the default one.")
     premises = ["memory safety and object lifetime of the C++ (observed by ASan/UBSan in the harness only)",
-                "indices/sizes below 2^32 (uint32 wrap-around of counts is not modelled)"]
+                "item counts below 2^31 (the uint32 sums size+extraPreallocs, count+n of EnsureSize/EnsureCanAdd/ShrinkToFit ARE modelled; "
+                "wrap-around of the item count itself, and allocation failure, are not)"]
     rule = ("operation scripts over Queue<int> (trivial) and Queue<Tracked> (owning) generated from random.Random(seed); "
             "after EVERY operation the result, user-visible items, _itemCount/_headIndex/_tailIndex/_queueSize, storage kind "
             "and all raw slots incl. the unused in-object array (for trivial items too: fresh memory is the ASan fill byte) are "
@@ -199,6 +207,14 @@ class CHECK(vlib.Check):
                     for tail in ("es:0:1:0:1", "es:1:1:0:1;es:4:1:0:0", "es:2:0:0:1;es:6:1:0:0", "rtm:2;es:%d:1:0:0" % (a + 1),
                                  "rhm:1;nm", "cl:0;es:3:1:0:0", "ra:1;ia:1:7;rv:0:99", "es:%d:1:2:1;es:%d:1:0:0" % (max(0, a - 2), a + 2)):
                         out.append(("directed", kind + "|" + base.strip(";") + ";" + tail))
+        # directed: the uint32 boundary of EnsureSize's size+extraPreallocs (and of EnsureCanAdd / ShrinkToFit): at, one below and
+        # past MUSCLE_NO_LIMIT, for every storage kind, with and without set-size / shrink
+        for kind in "TO":
+            for pre, c0 in (("", 0), ("at:1;at:2", 2), ("at:1;at:2;at:3;at:4;at:5", 5), ("es:7:0:0:0;at:1", 1)):
+                for big in ("es:10:1:4294967288:0", "es:10:0:4294967288:0", "es:10:1:4294967285:1", "es:1:1:4294967294:1", "es:0:0:4294967295:0",
+                            "es:4294967295:0:0:0", "es:4294967295:1:0:0", "es:4294967290:1:9:1", "es:3:1:4294967295:0", "eca:4294967295",
+                            "eca:%d" % (4294967295 - c0), "stf:4294967295", "stf:%d" % (4294967295 - c0)):
+                    out.append(("directed", kind + "|" + ";".join(x for x in (pre, big, "at:7;g:0") if x)))
         # directed: Sort around the bubble/merge threshold (12) and well past it, both comparators, sub-ranges, on a
         # wrapped window; keys x/4 with distinct payloads make stability observable
         for kind in "TO":
